@@ -40,7 +40,7 @@ def conclude(agg):
 CH = {'0': 0, '1': 3, 'N': 2, 'X': 1, 'L': 0, 'H': 3, 'P': 4}
 
 
-def gen_case(rng):
+def gen_case(rng, big=False):
     nd = rng.randint(1, 4)
     nch = rng.choice([1, 1, 2, 3])
     data_in = [f'd{i}' for i in range(nd)]
@@ -49,7 +49,7 @@ def gen_case(rng):
     chains = []
     k = 0
     for ch in range(nch):
-        n = rng.randint(1, 12)
+        n = rng.randint(1, 12) if not (big and ch == 0) else rng.choice([130, 270])     # big: a scan chain longer than 127 / 255 cells
         cells = []
         for _ in range(n):
             ffs.append({'name': f'f{k}_reg', 'kind': rng.choice(['DFF', 'SDFFX1', 'DFF_X1']), 'q': f'f{k}_reg', 'qn': None, 'd': None, 'ck': 'clk'})
@@ -87,7 +87,7 @@ def gen_case(rng):
             toks.append('!')
         chain_desc.append({'name': str(ch + 1), 'si': f'si{ch}', 'so': f'so{ch}', 'tokens': toks})
     style = rng.choice(['sa', 'loc'])
-    npat = rng.randint(1, 5)
+    npat = rng.randint(1, 5) if not big else rng.choice([1025, 1100, 2050])                  # big: more than 1024 / 2048 patterns
     pi_group = list(inputs)
     po_group = [o['name'] for o in outs]
     rng.shuffle(pi_group)
@@ -284,7 +284,7 @@ def check_case(ctx, case, idx):
     from kyupy import stil
     rng = random.Random(case['rseed'])
     text = render(case, rng)
-    wit = {'stil': text, 'netlist': G.net_text(case['net']), 'style': case['style'], 'rngkey': case.get('rngkey')}
+    wit = {'stil': text, 'netlist': G.net_text(case['net']), 'style': case['style'], 'rngkey': case.get('rngkey'), 'big': bool(case.get('big'))}
     with ctx.guard('stil-raises', wit):
         b = G.build(case['net'])
         tests, resp, loc, skip_t, skip_l, stats = expectations(case, b)
@@ -349,9 +349,12 @@ def check_case(ctx, case, idx):
 def run(spec, ctx):
     for i in range(spec['n']):
         rng = KRandom(f'C18/{spec["seed"]}/{spec["shard"]}/{i}')
-        check_case(ctx, dict(gen_case(rng), rngkey=rng.key), i)
+        big = (i == 1)
+        if big:
+            ctx.count('big_pattern_sets')
+        check_case(ctx, dict(gen_case(rng, big=big), rngkey=rng.key, big=big), i)
 
 
 def replay(case, ctx):
     rng = KRandom(case['rngkey'])
-    check_case(ctx, dict(gen_case(rng), rngkey=rng.key), 9)
+    check_case(ctx, dict(gen_case(rng, big=bool(case.get('big'))), rngkey=rng.key, big=bool(case.get('big'))), 9)
